@@ -639,7 +639,7 @@ func c15Saturation(p *Prog, r *Report, rule string) {
 // ---------------------------------------------------------------- history independence
 
 func c15History(p *Prog, r *Report, rule string) {
-	r.Rule(rule, "history independence of the moving groundwater table: backups are written only by the input routine, from the final unsaturated parameters; when the level changes every layer 0..N−1 of all four parameter arrays is rewritten from the backups (or recomputed from the texture table exactly as the input routine does) before the saturation routine, which is the only other writer of field capacity on the run path; the start state is saturated relative to the start level; the table row is read on every call", 10)
+	r.Rule(rule, "history independence of the moving groundwater table: backups are written only by the input routine, from the final unsaturated parameters; when the level changes every layer 0..N−1 of all four parameter arrays is rewritten from the backups (or recomputed from the texture table exactly as the input routine does) before the saturation routine, which is the only other writer of field capacity on the run path; the start state is saturated relative to the start level, with the layer convention of the daily update; the table row is read on every call", 11)
 	fx := p.Fields()
 	for _, f := range []string{"W_Backup", "WMIN_Backup", "PORGES_Backup", "WNOR_Backup"} {
 		for _, w := range fx.Writers(FieldRef{"GlobalVarsMain", f}) {
@@ -672,6 +672,59 @@ func c15History(p *Prog, r *Report, rule string) {
 			}
 		}
 		r.Ob("start:saturation", pos, okS, fmt.Sprintf("Init applies the saturation routine unconditionally after it has set the start level: %v", okS))
+	}
+	// the start state and the daily update use one convention for "which layer is the first one below the table":
+	// a run that starts on a level and later returns to it must find the same field capacities
+	// (clause of C15 only: under C06 the bound is whatever field capacity the day uses)
+	if strings.HasPrefix(rule, "C15.") {
+		loOf := func(key, root string) (Poly, token.Pos, bool) {
+			x := walked(p, key)
+			if x == nil {
+				return Poly{}, token.NoPos, false
+			}
+			for _, e := range x.Events {
+				if e.Kind != "assign" || e.Root != "GlobalVarsMain.W" || len(e.Idx) != 1 || len(e.Loops) == 0 {
+					continue
+				}
+				v := stripVersions(e.Val)
+				if !v.Equal(stripVersions(cellP("GlobalVarsMain.PORGES", e.Idx[0]))) {
+					continue
+				}
+				L := e.Loops[len(e.Loops)-1]
+				lo, _, _, why := loopBounds(x, L)
+				if why != "" || L.Var == nil {
+					continue
+				}
+				// first saturated layer (1-based): lower bound of the loop variable plus the index offset + 1
+				off := e.Idx[0].Sub(PAtom(L.Var))
+				return stripVersions(lo.Add(off).Add(PInt(1))), e.Pos, true
+			}
+			return Poly{}, token.NoPos, false
+		}
+		inLo, inPos, ok1 := loOf("hermes.Input", "")
+		upLo, _, ok2 := loOf("hermes.setFieldCapacityWithGW", "")
+		same := false
+		det := "saturation loops not recognised"
+		if ok1 && ok2 {
+			// the input routine works relative to GW, the update relative to GRW: rename before comparing
+			ren := func(q Poly) Poly {
+				return q.Subst(func(a *Atom) (Poly, bool) {
+					if a.Kind == "cell" && a.Root == "GlobalVarsMain.GRW" && len(a.Idx) == 0 {
+						return cellP("GlobalVarsMain.GW"), true
+					}
+					return Poly{}, false
+				})
+			}
+			a, b := ren(inLo), ren(upLo)
+			// the update's first (blended) layer is int(level+1); fully saturated layers start one below
+			same = a.Equal(b) || a.Equal(b.Add(PInt(1)))
+			det = fmt.Sprintf("input routine saturates from layer %s, the daily update from layer %s (blend layer) / %s (full)", clip(a.String(), 80), clip(b.String(), 60), clip(b.Add(PInt(1)).String(), 60))
+		}
+		pos := "-"
+		if ok1 {
+			pos = p.Pos(inPos)
+		}
+		r.Ob("start:same-convention", pos, same, "field capacity below the table at the start and after a level change: "+det)
 	}
 	// the texture-table route reads its row on every call: the loop that assigns the table values is entered
 	// unconditionally (some parameters are afterwards corrected in place, e.g. pore volume += humus term: a call
